@@ -41,8 +41,13 @@ pub struct Case {
     pub draws: u8,
 }
 
-fn pop8() -> Pop<R> {
-    population::<R>(&vec![vec![1]; 8], |r| Score(r.iter().sum()))
+/// one individual per member (marker i returns individual i), at least 8
+fn pop_for(shape: &Shape) -> Pop<R> {
+    let members = match shape {
+        Shape::Dyn(w) | Shape::DynGrown(w, _) => w.len(),
+        _ => 8,
+    };
+    population::<R>(&vec![vec![1]; members.max(8)], |r| Score(r.iter().sum()))
 }
 
 /// (leaf weights in marker order, overflow expected?)
@@ -187,7 +192,7 @@ fn with_chain<T>(
 
 /// Draw `n` selections from a shape; returns per-member pick counts or the construction outcome.
 fn sample_shape<G: rand::RngCore>(shape: &Shape, n: u64, rng: &mut G) -> Result<(Vec<u64>, Vec<u64>, bool), Fail> {
-    let pop = pop8();
+    let pop = pop_for(shape);
     match shape {
         Shape::Tree(w) => {
             let mut leaves = vec![];
@@ -427,6 +432,14 @@ fn law_jobs(seed: u64) -> Vec<Job> {
         }
         shapes.push(Shape::Dyn(ws.iter().map(|w| *w as usize).collect()));
         shapes.push(Shape::DynGrown(ws.iter().map(|w| *w as usize).collect(), 1 + (wi % 3) as u8));
+    }
+    // long dynamic lists (a size-dependent fast path must not hide behind lists of <= 6 members)
+    for (len, modulus) in [(17usize, 5u64), (40, 7), (130, 3), (300, 11)] {
+        let ws: Vec<usize> = (0..len as u64).map(|i| (splitmix(seed ^ 0xD1 ^ i << 16 ^ len as u64) % modulus) as usize).collect();
+        shapes.push(Shape::Dyn(ws.clone()));
+        if len <= 40 {
+            shapes.push(Shape::DynGrown(ws, 1));
+        }
     }
     shapes
         .into_iter()
